@@ -222,6 +222,13 @@ def case_ble_writethrough(p):
                 out.append(("ble-cache:write-carries-values-the-pairing-no-longer-holds", {"history": p["history"][: k + 1], "written_vs_held": stale[0]}))
                 break
         if not out:
+            # the broadcast key the live session derived is what a restart has to find (broadcasts are sealed with it)
+            held_key = pr.broadcast_key
+            cm = cache.get_map(pr.id)
+            cached_key = cm.get("broadcast_key") if cm else None
+            if held_key is not None and (cached_key is None or bytes.fromhex(cached_key) != bytes(held_key)):
+                out.append(("ble-cache:restart-reads-another-broadcast-key-than-the-session-derived", {"history": p["history"], "cached": cached_key and cached_key[:8], "held": bytes(held_key).hex()[:8]}))
+        if not out:
             new = type(pr)(rig.controller, dict(pr.pairing_data))
             held = {(1, i): pr.accessories.aid(1).characteristics.iid(i).value for i in (9, 10)} if pr.accessories else {}
             read = {(1, i): new.accessories.aid(1).characteristics.iid(i).value for i in (9, 10)} if new.accessories else {}
